@@ -63,11 +63,18 @@ func NewComponents(spec specification.Components, cfg Config) (zero Components, 
 	cs.RequestBodies = make([]RequestBodyComponent, 0, len(spec.RequestBodies.List))
 	for _, rb := range spec.RequestBodies.List {
 		if ref := rb.V.Ref(); ref != nil {
-			cs.RequestBodies = append(cs.RequestBodies, RequestBodyComponent{
-				Name:        rb.Name + "JSON",
-				Description: rb.V.Value().Description,
-				GoTypeFn:    StringRender(ref.Name + "JSON").Render,
-			})
+			// an alias names the types of its target, one per media type the target declares
+			for _, cnt := range rb.V.Value().Content.List {
+				suffix := PublicFieldName(cnt.Name)
+				if cnt.Name == "application/json" {
+					suffix = "JSON"
+				}
+				cs.RequestBodies = append(cs.RequestBodies, RequestBodyComponent{
+					Name:        rb.Name + suffix,
+					Description: rb.V.Value().Description,
+					GoTypeFn:    StringRender(ref.Name + suffix).Render,
+				})
+			}
 		} else {
 			for _, cnt := range rb.V.Value().Content.List {
 				name := rb.Name
